@@ -105,7 +105,14 @@ class Work:
             n = self.n
         # data directories and dump folders with a blank and a non-ASCII character in their name now and then (paths are not inputs)
         odd = ' \u00e9' if prefix in ('dd', 'out', 'cl') and n % 4 == 1 and os.environ.get('RBP_VERIF_NO_AMBIENT') is None else ''
-        p = os.path.join(self.dir, '%s%d%s' % (prefix, n, odd))
+        base = self.dir
+        if prefix in ('dd', 'cl') and n % 5 == 3 and os.environ.get('RBP_VERIF_NO_AMBIENT') is None and os.access('/dev/shm', os.W_OK):
+            # every fifth data directory lives on tmpfs: another file system, and one whose directory listing comes in reverse
+            # creation order instead of hash order (the order in which read_dir yields the blk files is no input)
+            self.shm = '/dev/shm/rbp-verif-%d' % os.getpid()
+            os.makedirs(self.shm, exist_ok=True)
+            base = self.shm
+        p = os.path.join(base, '%s%d%s' % (prefix, n, odd))
         if prefix in ('dd', 'cl') and n % 9 == 4 and os.environ.get('RBP_VERIF_NO_AMBIENT') is None:
             # a data directory whose path ends like another coin's default folder: which coin is parsed is decided by -c alone
             p = os.path.join(p, ['.dogecoin/blocks', '.namecoin', '.litecoin/blocks', '.bitcoin/testnet3/blocks'][(n // 9) % 4])
